@@ -149,6 +149,15 @@ func c10Run(w *W) {
 			if asyncDial {
 				w.Here("Dial(async, absent)", func() (interface{}, error) { return nil, d.Dial() })
 			}
+			if w.Choose(simrt.SProg, 4) == 0 {
+				// a second dialer for the same address, started and closed again
+				// before the close under test: the first one is still the socket's
+				if d2, err := s.NewDialer(daddr, w.EpOpts(daddr, false, map[string]interface{}{mangos.OptionDialAsynch: true})); err == nil {
+					w.Here("second dialer, same address: Dial", func() (interface{}, error) { return nil, d2.Dial() })
+					w.Here("second dialer, same address: Close", func() (interface{}, error) { return nil, d2.Close() })
+					w.Probe("second-dialer-for-the-same-address-closed")
+				}
+			}
 		}
 	}
 	w.Settle()
